@@ -3,6 +3,7 @@ package props
 import (
 	"encoding/hex"
 	"fmt"
+	"io"
 	"os"
 	"testing"
 	"time"
@@ -23,6 +24,7 @@ type c14Case struct {
 	Both     bool   `json:"both"`                          // run the parallel twin as well (after the sequential run did not crash)
 	Prior    int    `json:"prior_healthy_bytes,omitempty"` // history: an earlier single-shot detection of this many bytes on a healthy source
 	PriorWF  string `json:"prior_workflow,omitempty"`      // history for the workflows: which detection ran dry (after Prior zero bytes) earlier in this process ("" = the parallel twin)
+	FileHdr  int    `json:"file_header_bytes,omitempty"`   // > 0: the source is an *os.File holding this many healthy bytes first and the repeating stream after them, positioned behind the healthy part
 }
 
 func checkC14(c c14Case) (Outcome, error) {
@@ -35,10 +37,33 @@ func checkC14(c c14Case) (Outcome, error) {
 		distinct[b] = true
 	}
 	out := Outcome{NonTrivial: len(distinct) >= 2 || c.Workflow == "single", Classes: []string{"workflow:" + c.Workflow, "tile:" + c.TileKind, fmt.Sprintf("period<=%d", bucket(len(tile)))}}
-	mk := func() *gen.Reader {
+	var cleanup []func()
+	defer func() {
+		for _, f := range cleanup {
+			f()
+		}
+	}()
+	mk := func() io.Reader {
+		if c.FileHdr > 0 && c.Workflow != "single" {
+			w := workflows[c.Workflow]
+			body := make([]byte, w.S*w.SampleBytes+64)
+			for i := range body {
+				body[i] = tile[i%len(tile)]
+			}
+			if f, err := os.CreateTemp(envOr("VERIF_SCRATCH", os.TempDir()), "c14-*.bin"); err == nil {
+				_, _ = f.Write(sampleBytes(uint64(c.FileHdr), c.FileHdr))
+				_, _ = f.Write(body)
+				_, _ = f.Seek(int64(c.FileHdr), io.SeekStart)
+				cleanup = append(cleanup, func() { f.Close(); os.Remove(f.Name()) })
+				return f
+			}
+		}
 		r := gen.NewReader(tile)
 		r.Wrap = true
 		return r
+	}
+	if c.FileHdr > 0 && c.Workflow != "single" {
+		out.Classes = append(out.Classes, "source:os.File@offset")
 	}
 	if c.Workflow == "single" {
 		if c.Prior > 0 {
@@ -193,6 +218,9 @@ func genC14(t *rapid.T) c14Case {
 		return c
 	}
 	c.TileKind, c.Tile = drawTile(t)
+	if c.Workflow == "period" && rapid.IntRange(0, 3).Draw(t, "file") == 0 {
+		c.FileHdr = rapid.SampledFrom([]int{1, 2500, 50000, 50001, 125000}).Draw(t, "file_header")
+	}
 	if rapid.IntRange(0, 2).Draw(t, "history") == 0 {
 		c.Prior = rapid.SampledFrom([]int{1, 2499, 2500, 30000}).Draw(t, "prior_bytes")
 		c.PriorWF = rapid.SampledFrom(priorWorkflows).Draw(t, "prior_workflow")
